@@ -475,7 +475,11 @@ def run_check(mod, tier, seed):
         with BuildLock():
             # 1. translator
             try:
-                for p in regenerate(getattr(mod, 'GEN', None)):
+                # translator problems are charged to a property only for the generated files its closure imports
+                # (plus those it names in GEN); all files are regenerated in any case
+                gen_needed = set(getattr(mod, 'GEN', None) or [])
+                gen_needed.update(os.path.basename(f) for f in closure(prop_rel) if f.startswith('gen/'))
+                for p in regenerate(sorted(gen_needed)):
                     ctx.problem('translator', p)
             except Exception as e:
                 ctx.problem('translator', 'translator crashed: %r' % (e,), traceback.format_exc())
